@@ -41,6 +41,28 @@ def check_text(text, flags, expd, value):
     return None
 
 
+def _step(v, st):
+    return v[int(st[1:])] if st[0] == "i" else v[bytes.fromhex(st[1:])]
+
+
+def get_at(v, path):
+    for st in path:
+        v = _step(v, st)
+    return v
+
+
+def set_at(v, path, nv):
+    if not path:
+        return nv
+    par = get_at(v, path[:-1])
+    st = path[-1]
+    if st[0] == "i":
+        par[int(st[1:])] = nv
+    else:
+        par[bytes.fromhex(st[1:])] = nv
+    return v
+
+
 def shard_fn(shard, nshards, seed, tier, exe, ntrees, ndoubles):
     rng = random.Random("%d/%d/c02" % (seed, shard))
     sh = core.Shard()
@@ -50,13 +72,59 @@ def shard_fn(shard, nshards, seed, tier, exe, ntrees, ndoubles):
         toks, value = tg.tree()
         cid = "%d.%d" % (shard, i)
         extra = []
+        cases_b0 = "B 0 " + " ".join(toks)
         if rng.random() < 0.12:
             # a node that had a custom serializer for a while and was reset to the default one must serialize like any other node
             path, t = random_path(rng, toks)
             if t[0] not in "nD":
                 extra = ["NAV 0 5 " + " ".join(path), "SS 5 0 1", "SS 5 0 0"]
                 sh.count("trees.node_with_serializer_reset.%s" % {"[": "array", "{": "object", "i": "int", "u": "int", "d": "double", "s": "string", "t": "boolean", "f": "boolean"}.get(t[0], t[0]))
-        cases.append((cid, ["B 0 " + " ".join(toks)] + extra + ["S64 0", "PUT 0"]))
+        elif rng.random() < 0.2:
+            # the tree reaches its value through in-place mutation (set_int/set_double/set_boolean/set_string, array add, object add / delete+re-add):
+            # what is serialized is the value it has NOW, whatever the node was created from (a retained number text, a shorter string, ...)
+            for _ in range(rng.choice([1, 1, 2, 4])):
+                path, t = random_path(rng, toks)
+                c0 = t[0]
+                nv, cm = None, None
+                if c0 in "iu":
+                    nv = rng.choice([0, -1, 1 << 53, -(1 << 63), (1 << 63) - 1, rng.getrandbits(62)])
+                    cm = ["SET 5 i64 %d" % nv]
+                elif c0 in "dD":
+                    nv = rng.choice([0.5, -2.0, 1e300, 5e-324, 123456789.125, 0.1, 3.0])
+                    cm = ["SET 5 dbl %016x" % refjson.dbits(nv)]
+                elif c0 == "s":
+                    nv = bytes(rng.choice(b'ab"\\/\x00\x01\xc3\xa9 z') for _ in range(rng.choice([0, 1, 7, 8, 40, 300])))
+                    try:
+                        nv.decode("utf-8")
+                    except UnicodeDecodeError:
+                        nv = nv.replace(b"\xc3", b"c").replace(b"\xa9", b"e")
+                    cm = ["SSTR 5 x" + nv.hex()]
+                elif c0 in "tf":
+                    nv = rng.random() < 0.5
+                    cm = ["SET 5 bool %d" % nv]
+                elif c0 == "[":
+                    cur = get_at(value, path)
+                    nv = list(cur) + [424242]
+                    cm = ["NEW 9 - int 424242", "AADD 5 9"]
+                elif c0 == "{":
+                    cur = get_at(value, path)
+                    nv = dict(cur)
+                    if nv and rng.random() < 0.5:
+                        k0 = rng.choice(list(nv))
+                        v0 = nv.pop(k0)
+                        v0 = 7
+                        nv[k0] = v0   # deleted and added again: now the last member
+                        cm = ["ODEL 5 x" + k0.hex(), "NEW 9 - int %d" % v0, "OADD 5 x%s 9 0" % k0.hex()]
+                    else:
+                        nv[b"\x02added"] = 7
+                        cm = ["NEW 9 - int 7", "OADD 5 x%s 9 0" % b"\x02added".hex()]
+                if cm is None:
+                    continue
+                extra += ["NAV 0 5 " + " ".join(path)] + cm
+                value = set_at(value, path, nv)
+                sh.count("trees.mutated_in_place_before_serializing")
+                break
+        cases.append((cid, [cases_b0] + extra + ["S64 0", "PUT 0"]))
         meta[cid] = ("tree", toks, value, 1 + len(extra))
     # many single doubles under PLAIN and NOZERO (the trimming logic is shape dependent)
     per = ndoubles // nshards
